@@ -24,7 +24,7 @@ pub fn def() -> PropDef {
 fn plan(tier: Tier) -> Vec<Unit> {
     match tier {
         Tier::Quick => crate::util::split_budget("roots", 300_000, 2_000),
-        Tier::Thorough => crate::util::split_budget("roots", 3_000_000, 5_000),
+        Tier::Thorough => crate::util::split_budget("roots", 30_000_000, 10_000),
         Tier::Miri => crate::util::split_budget("roots", 4, 2),
     }
 }
